@@ -32,6 +32,9 @@ inductive Scalar where
   | neg (n : Nat)
   | float (s : String)
   | bool (b : Bool)
+  /-- `sizeof(t<uint>(1u))` for a function template `t`: a constant expression with the value 4 whose type check
+      instantiates `t` (the instantiated function stays in the module) -/
+  | sizeofInst (template : String)
   /-- `{ }` used where a scalar is expected -/
   | emptyAgg
   deriving DecidableEq, Repr
@@ -179,6 +182,7 @@ def extractUint32 (s : Scalar) (path : Nat) : Except Err Nat :=
   match s with
   | .num n => if n ≤ 4294967295 then .ok n else .error ⟨.requiresInteger, path⟩
   | .bool b => .ok (if b then 1 else 0)
+  | .sizeofInst _ => .ok 4
   | .neg _ => .error ⟨.requiresInteger, path⟩
   | .float _ => .error ⟨.requiresInteger, path⟩
   | .emptyAgg => .error ⟨.requiresInteger, path⟩
@@ -420,6 +424,29 @@ def pipeDefsFrom : List FnDecl → List Item → List (List FnDecl × PipeDef)
   | reg, .pipe d :: rest => (reg, d) :: pipeDefsFrom reg rest
 
 def pipeDefs (items : List Item) : List (List FnDecl × PipeDef) := pipeDefsFrom [] items
+
+/-! ## what the property values of a block leave behind in the module
+
+`extract_uint32` hands the value to `parse_expr` **on the live typer context**: a value that calls a function template
+instantiates it, and the instantiated function is part of the module every pipeline is built from. -/
+
+def Scalar.instantiates : Scalar → List String
+  | .sizeofInst t => [t]
+  | _ => []
+
+def Val.instantiates : Val → List String
+  | .single s => s.instantiates
+  | .agg ps => ps.flatMap fun p => p.2.instantiates
+
+/-- the function templates the property values of a block instantiate (for a block of an accepted file: every value is
+    evaluated; such a value is only accepted where an integer is expected) -/
+def instantiatedBy (d : PipeDef) : List String := d.props.flatMap fun p => p.2.instantiates
+
+/-- the template instantiations the Pipeline blocks of an accepted file add to the module, in source order -/
+def instancesOf : List Item → List String
+  | [] => []
+  | .func _ :: rest => instancesOf rest
+  | .pipe d :: rest => instantiatedBy d ++ instancesOf rest
 
 /-- delete the Pipeline blocks whose name is not kept; everything else stays -/
 def deletePipes (keep : String → Bool) (items : List Item) : List Item :=
